@@ -309,6 +309,7 @@ def gen_cases(rng, tier, have):
                 C.append(mk("prim_inv", [n], "prim_inv", n=n))
     for p in [2, 3, 5, 7, 65537, (1 << 61) - 1]:
         for e in range(1, 9 if p < 8 else 4):
+            _FC[p ** e] = {p: e}
             C.append(mk("lambda_inv_primpow", [p, e], "lambda_inv_primpow", p=p, e=e))
             if have["lambda_primpow"]:
                 C.append(mk("lambda_primpow", [p, e], "lambda_primpow", p=p, e=e))
@@ -337,7 +338,7 @@ def gen_cases(rng, tier, have):
             if n <= (120 if th else 48):
                 C.append(mk("is_prim_root", [a, n], "is_prim_root", a=a, n=n))
                 o = order_brute(a, n)
-                for g in sorted({o, max(o // 2, 1), o * 2, phi_f(n)}):
+                for g in sorted({o, max(o // 2, 1), o * 2, phi_f(n)} - {0}):       # g >= 1: order 0 is the code's "failed"
                     C.append(mk("isorder", [g, a, n], "isorder", g=g, a=a, n=n))
     for i in range(6000 if th else 1200):
         n = rng.range(2, 5000); a = rng.range(0, n - 1)
@@ -368,6 +369,7 @@ def gen_cases(rng, tier, have):
             C.append(mk("lowest_prim_root", [n], "lowest_prim_root", n=n))
     for i in range(60 if th else 16):
         q = rand_prime(rng, rng.range(14, 32))          # the code factors p^m by Pollard rho: ~4 s for a 43-bit p
+        _FC.update({q: {q: 1}, 2 * q: {2: 1, q: 1}, q * q: {q: 2}, 2 * q ** 3: {2: 1, q: 3}})
         for n in (q, 2 * q, q * q, 2 * q ** 3):
             C.append(mk("prim_root", [n], "prim_root", n=n))
         C.append(mk("prim_root_of_prime", [q], "prim_root_of_prime", n=q))
@@ -388,7 +390,10 @@ def gen_cases(rng, tier, have):
     for q, tag in big:
         r = rng.range(2, q - 2)
         nr = next(x for x in range(2, 500) if pow(x, (q - 1) // 2, q) == q - 1)
-        for a in (r * r % q, (r * r % q) - q, nr * r * r % q, 0, 1, q - 1, 2, q + 4):
+        aa = (r * r % q, (r * r % q) - q, nr * r * r % q, 0, 1, q - 1, 2, q + 4)
+        if not th and q.bit_length() > 70:
+            aa = (r * r % q, nr * r * r % q, -(r * r % q) if q % 4 == 1 else q - 1)
+        for a in aa:
             C.append(mk("sqrootmodprime", [a, q], "sqrtp", a=a, p=q, k=1, tag=tag))
     # ---- prime powers
     for q in [3, 5, 7, 11, 13, 17, 41, 73, 97]:
@@ -402,7 +407,7 @@ def gen_cases(rng, tier, have):
     for i in range(60 if th else 20):
         q = rng.choice([3, 5, 7, 17, 41, 97, 193, 257, 65537]) if rng.chance(1, 2) else rand_prime(rng, rng.choice([20, 40, 64, 70]), rng.choice([1, 3, 5, 7, 9, 11, 13, 15]))
         for k in ([2, 3, 4, 5, 6, 7, 8, 9, 15, 16, 17, 31, 32, 33, 40] if th else [2, 3, 4, 5, 7, 8, 16, 33, 40]):
-            if q.bit_length() * k > (4000 if th else 1400):
+            if q.bit_length() * k > (4000 if th else 800):
                 continue
             qk = q ** k
             r = rng.range(1, qk - 1)
@@ -479,8 +484,9 @@ def gen_cases(rng, tier, have):
         if q > 2:
             for s in range(2, q):
                 if pow(s, (q - 1) // 2, q) == q - 1 and pow(s - 1, (q - 1) // 2, q) == 1:
-                    for k in range(0, q, 3):
-                        C.append(mk("sumofsquares.nonres", [k, s, q], "sos", k=k, p=q, s=s))
+                    for k in range(1, q):          # precondition: k/s is a residue, i.e. k is a non-residue
+                        if pow(k, (q - 1) // 2, q) == q - 1:
+                            C.append(mk("sumofsquares.nonres", [k + q * (k % 3 - 1), s, q], "sos", k=k + q * (k % 3 - 1), p=q, s=s))
     for bits in ([40, 64, 128] if th else [40, 64]):
         for cls in (1, 3, 5, 7, 9, 15):
             q = rand_prime(rng, bits, cls)
@@ -493,7 +499,7 @@ def gen_cases(rng, tier, have):
             if b <= 3 or a % 7 == 0 or any(abs(a - b ** e) <= 1 for e in range(1, 12)):
                 C.append(mk("logp", [a, b], "logp", a=a, b=b))
     for i in range(400 if th else 120):
-        b = rng.choice([2, 3, 10, 65537, rng.range(2, 2 ** 40), rng.bits(70) + 2]); e = rng.range(1, 60)
+        b = rng.choice([2, 3, 10, 65537, rng.range(2, 2 ** 40), rng.bits(70) + 2]); e = rng.range(1, 60 if th else max(2, 500 // b.bit_length()))
         for a in (b ** e - 1, b ** e, b ** e + 1, rng.range(b ** e, b ** (e + 1) - 1)):
             if a >= b:
                 C.append(mk("logp", [a, b], "logp", a=a, b=b))
@@ -728,7 +734,7 @@ def model_line(c, out):
         if c["iop"] == "sumofsquares.noerh":
             kk, p = c["k"], c["p"]
             r0 = p % 4
-            tr = int(math.fmod(kk, 4))
+            tr = kk % 4 if kk >= 0 else -((-kk) % 4)           # C++ % on a negative k truncates
             start = (r0 - tr if r0 == 1 else r0 + tr) * p + kk
             r = start
             for _ in range(100000):
@@ -806,6 +812,34 @@ def build_impl(chk):
     return b, log, have
 
 
+def run_parallel(binary, lines, nproc=6, timeout=1500):
+    """run the line-protocol binary on `lines` split round-robin over nproc processes; returns (ok, outputs in order, err)"""
+    if not lines:
+        return True, [], ""
+    nproc = max(1, min(nproc, len(lines) // 200 + 1))
+    chunks = [lines[i::nproc] for i in range(nproc)]
+    procs = [subprocess.Popen([binary], stdin=subprocess.PIPE, stdout=subprocess.PIPE, stderr=subprocess.PIPE, universal_newlines=True, errors="replace") for _ in chunks]
+    import threading
+    res = [None] * nproc
+
+    def work(i):
+        try:
+            o, e = procs[i].communicate("".join(l + "\n" for l in chunks[i]), timeout=timeout)
+            res[i] = (procs[i].returncode, o.splitlines(), e)
+        except subprocess.TimeoutExpired:
+            procs[i].kill(); res[i] = (124, [], "[timeout]")
+    ths = [threading.Thread(target=work, args=(i,)) for i in range(nproc)]
+    [t.start() for t in ths]; [t.join() for t in ths]
+    out = [None] * len(lines); ok = True; err = ""
+    for i, (rc, o, e) in enumerate(res):
+        if rc != 0 or len(o) != len(chunks[i]):
+            ok = False
+            err += "chunk %d: rc=%s, %d/%d lines; first missing: %s\n%s\n" % (i, rc, len(o), len(chunks[i]), chunks[i][len(o)][:300] if len(o) < len(chunks[i]) else "", e[-400:])
+        for j, l in enumerate(o[:len(chunks[i])]):
+            out[i + j * nproc] = l
+    return ok, out, err
+
+
 def main(tier, replay=None):
     chk = vf.Check("C13", tier, "proof")
     rng = vf.Rng(chk.seed)
@@ -845,22 +879,22 @@ def main(tier, replay=None):
         cases = [Case(f["case"]) for f in rp.get("failing_inputs", []) if isinstance(f.get("case"), dict) and "iop" in f["case"]]
     else:
         cases = gen_cases(rng, tier, have)
-    impl_in = "".join("%s %s\n" % (c["iop"], " ".join(str(x) for x in c["iargs"])) for c in cases)
-    rc, iout, ierr = vf.run_lines(himpl, impl_in, timeout=1500)
-    if rc != 0 or len(iout) != len(cases):
-        bad = cases[len(iout)] if len(iout) < len(cases) else None
+    ilines = ["%s %s" % (c["iop"], " ".join(str(x) for x in c["iargs"])) for c in cases]
+    okr, iout, ierr = run_parallel(himpl, ilines)
+    if not okr:
+        bad = next((i for i, o in enumerate(iout) if o is None), None)
         if bad is not None:
-            chk.fail_input("harness", "crash", dict(bad), "a result line", "the implementation harness stopped (rc=%s) at this case" % rc, ierr[-500:])
+            chk.fail_input("harness", "crash-or-hang", dict(cases[bad]), "a result line", "the implementation harness stopped at (or before) this case", ierr[-800:])
         else:
-            chk.broke("implementation harness failed (rc=%s, %d/%d lines)" % (rc, len(iout), len(cases)), ierr)
+            chk.broke("implementation harness failed", ierr)
         return chk.finish()
     mlines = [model_line(c, o) for c, o in zip(cases, iout)]
     mout = None
     idx = [i for i, m in enumerate(mlines) if m is not None]
     if drv:
-        rc, mo, merr = vf.run_lines(drv, "".join(mlines[i] + "\n" for i in idx), timeout=1500)
-        if rc != 0 or len(mo) != len(idx):
-            chk.broke("model driver failed (rc=%s, %d/%d lines)" % (rc, len(mo), len(idx)), merr)
+        okm, mo, merr = run_parallel(drv, [mlines[i] for i in idx], nproc=8)
+        if not okm:
+            chk.broke("model driver failed", merr)
         else:
             mout = dict(zip(idx, mo))
     # 4. three-way comparison
@@ -887,7 +921,7 @@ def main(tier, replay=None):
             if not corresponds(c, iout[i], mout[i]):
                 nb += 1
                 if nb <= 20:
-                    chk.broke("correspondence model/implementation differs on `%s`: model(%s) = %s, impl = %s" % (impl_in.splitlines()[i][:200], mlines[i][:300], mout[i][:200], iout[i][:200]))
+                    chk.broke("correspondence model/implementation differs on `%s`: model(%s) = %s, impl = %s" % (ilines[i][:200], mlines[i][:300], mout[i][:200], iout[i][:200]))
             else:
                 mok = spec(c, mout[i], cache)[0]
                 if mok is False:
